@@ -64,6 +64,9 @@ Definition show_node (n : node) : str :=
   List.concat (map (fun kc => lit " k" ++ str_of_Z (fst kc) ++ show_child (snd kc))
               (sort_by (n_children n))) ++ lit "}".
 
+Definition show_nodes (ns : list (Z * node)) : str :=
+  List.concat (map (fun kn => lit " k" ++ str_of_Z (fst kn) ++ show_node (snd kn)) (sort_by ns)).
+
 Definition show_key (k : key) : str :=
   let '(a, b, c) := k in
   lit "(" ++ str_of_Z a ++ lit "," ++ str_of_Z b ++ lit "," ++ str_of_Z c ++ lit ")".
